@@ -4,7 +4,7 @@ import glob, json, os
 HERE = os.path.dirname(os.path.dirname(os.path.abspath(__file__)))
 print("| seeded change | property | what it needs to manifest | demo with/without | existing tests | checks run (exit) |")
 print("|---|---|---|---|---|---|")
-for d in sorted(glob.glob(os.path.join(HERE, "seeded", "*"))):
+for d in sorted(p for p in glob.glob(os.path.join(HERE, "seeded", "*")) if os.path.isdir(p)):
     m = json.load(open(os.path.join(d, "meta.json")))
     c = m.get("confirmed_by_verifier", {})
     runs = ", ".join("%s=%s" % (r["check"], {0: "miss", 1: "CAUGHT", 2: "error"}.get(r["exit"], r["exit"])) for r in c.get("checks_run_against_change", []))
